@@ -1054,6 +1054,12 @@ mod pipeline {
             assert!(self.cmds.len() >= 2);
 
             let (err_read, err_write) = crate::popen::make_pipe()?;
+            // Only the copy installed as the commands' stderr may reach them:
+            // a stray copy of the write end kept open by a command that has
+            // closed its stderr would hold back end-of-file on the captured
+            // stream, and the read end is ours alone.
+            crate::popen::set_inheritable(&err_read, false)?;
+            crate::popen::set_inheritable(&err_write, false)?;
             self = self.stderr_to(err_write);
 
             let stdin_data = self.stdin_data.take();
